@@ -180,9 +180,11 @@ def outcomes_for(g, calls):
     return [observe.observe(g, t, e).outcome for e, t in calls]
 
 
-def run_chain(rec, grammars, ignore_mode, order, quick):
+def run_chain(rec, grammars, ignore_mode, order, quick, trusted=False):
+    # curated chains are trusted (the static analysis treats a parameter under a repetition as possibly
+    # empty and would drop them silently; the model re-checks progress on every input)
     for i in range(1, len(grammars) + 1):
-        if not gen.well_formed(grammars[:i]):
+        if not trusted and not gen.well_formed(grammars[:i]):
             rec.drop()
             return
     # derived grammars are written with and without the `override` / `overrides` keyword
@@ -249,6 +251,17 @@ def run_chain(rec, grammars, ignore_mode, order, quick):
                             break
                 else:
                     parent_before[key] = outs
+        # back to back on the SAME text object: every module of the family right after every other one
+        # (whatever a call leaves behind -- also a call that failed -- must not reach the next module)
+        b2b = base_inputs[:25 if quick else 120]
+        for t in b2b:
+            for i in range(len(mods)):
+                for j in range(len(mods)):
+                    if i == j:
+                        continue
+                    observe.observe(mods[i], t)
+                    rec.count('back_to_back_pairs')
+                    check_level(rec, mods[j], chain_all[:j + 1], [(None, t)], dict(case0, level=j, after_level=i, back_to_back=True), j)
         # a second grammar re-using the base name must not alter the existing modules
         other = dict(name=names[0], extends=None, stmts=[('rule', 'start', None, ('str', 'zzz')), ('rule', 'Item', None, ('str', 'q'))])
         r = observe.compile_grammar(gast.render_grammar(other))
@@ -381,6 +394,14 @@ def curated_chains():
     out.append(('ignore-both-anon', 'both-anon', [[an] + A, B_super_item + [un]]))
     out.append(('ignore-three', 'three', [[sp] + A, B_super_item + [un], [('rule', 'Item', None, ('alt', [('str', 'd'), ('super', 'Item')])), ti]]))
     out.append(('class-start-inherited-ignore', 'base-named', [[sp] + CS, [('rule', 'Item', None, ('alt', [('str', 'c'), ('super', 'Item')]))]]))
+    # the same literal text handed to a template by the base and by the derived grammar, which differ in
+    # their ignore patterns: each grammar's own literal skips what that grammar ignores
+    LA = [('rule', 'start', None, ('star', ('call', 'Pt2', [('str', 'a')]))),
+          ('rule', 'Pt2', ['x'], ('seq', [('ref', 'x'), ('opt', ('str', 'b'))]))]
+    LB = [('rule', 'start', None, ('star', ('alt', [('call', 'Pt2', [('str', 'a')]), ('call', 'Pt2', [('kw', 'x', ('str', 'c'))])])))]
+    out.append(('literal-argument-both-levels-derived-ignore', 'derived', [LA, LB + [un]]))
+    out.append(('literal-argument-both-levels-both-ignore', 'both', [[sp] + LA, LB + [un]]))
+    out.append(('literal-argument-both-levels-base-ignore', 'base-named', [[sp] + LA, LB]))
     out.append(('ignore-three-gap', 'three', [[sp] + A, B_super_item, [('rule', 'Extra', None, ('str', '#')), ti]]))
     return out
 
@@ -405,7 +426,7 @@ def run_shard(rec):
             for order in ('use-early', 'use-late'):
                 idx += 1
                 if rec.mine(idx):
-                    run_chain(rec, build_curated(levels, dotted), mode, order, quick)
+                    run_chain(rec, build_curated(levels, dotted), mode, order, quick, trusted=True)
                     rec.count('curated_chains')
     n = 25 if quick else 500
     for i in range(n):
